@@ -33,44 +33,42 @@ Theorem C12_parsed_points_wf :
 Proof. exact parsed_points_wf. Qed.
 Print Assumptions C12_parsed_points_wf.
 
-(** FULL STATEMENT (refuted below): "every returned point has at least one field WITH A
-    NAME" (what Fields() returns, what NewPoint demands).
-    The faithful model refutes it: the line  m<space><TAB>=1  is accepted and yields a
-    point whose only field has the EMPTY key (skipWhitespace skips TAB and NUL, but the
-    "missing field key" test of scanFields only looks for ' ' and ',' before the '=').
-    Replayed on the real code: ParsePoints("m \t=1") returns one point, Fields() = {}. *)
-Theorem C12_named_field_refuted :
-  exists p, fst (parse_points P_ns 0 tab_witness) = [p] /\
-            snd (parse_points P_ns 0 tab_witness) = [] /\
-            v_fields (view p) = [([], VFloat 4607182418800017408)] /\
-            wf_view (view p) = false.
-Proof. exact named_field_refuted. Qed.
-Print Assumptions C12_named_field_refuted.
-
-(** Strongest true weakening: if the input contains no TAB and no NUL byte, the first
-    field of every returned point has a non-empty name. *)
-Theorem C12_named_field_partial :
+(** "At least one field WITH A NAME" (what Fields() returns, what NewPoint demands): for ALL
+    byte strings, the first field of every returned point has a non-empty name.  (Before the
+    repair of scanFields — an '=' that is the first byte of the fields section is now rejected
+    whatever whitespace byte was skipped — this was refuted by  m<space><TAB>=1 ; the former
+    witness is now the regression example below.) *)
+Theorem C12_first_field_named :
   forall prec dflt buf p,
-    no_tab_nul buf = true ->
     In p (fst (parse_points prec dflt buf)) ->
     exists k v r, v_fields (view p) = (k, v) :: r /\ k <> [].
 Proof. exact parsed_points_named_field. Qed.
-Print Assumptions C12_named_field_partial.
+Print Assumptions C12_first_field_named.
 
-(** FULL STATEMENT (refuted): "the typed accessors of a returned point never fail".
+Example C12_tab_before_equals_rejected :
+  parse_points P_ns 0 tab_witness = ([], [(tab_witness, E_MISSING_FIELD_KEY)]).
+Proof. exact tab_witness_rejected. Qed.
+
+(** FULL STATEMENT (refuted; OPEN finding): the typed accessors of a returned point never fail.
     scanFields pairs backslashes (an '=' after an ESCAPED backslash separates key and value)
     while walkFields / FieldIterator look one byte back (that '=' counts as escaped): the line
-        m a\\="x=t,b="
-    is accepted; the iterator sees a boolean field (key up to the x, value t) and a field  b  whose value is a lone
-    double quote, on which StringValue() - hence Fields() - PANICS (slice bounds [1:0]; [VErr 3]
-    in the model).  Replayed on the real code (known finding).  No weakening is proved for this
-    clause (it would need: no backslash in the fields section). *)
+        m a\\="x=-i,b=1" 5
+    is accepted; the iterator sees an Integer field (key up to the x, value -i) whose
+    IntegerValue() returns an error, and a Float field whose FloatValue() returns an error.
+    Replayed on the real code.  No weakening is proved for this clause (it would need: no
+    backslash in the fields section).  The PANIC of StringValue() on a lone double-quote value
+    (line  m a\\="x=t,b="  ) is repaired: it returns the empty string (second example). *)
 Theorem C12_accessors_total_refuted :
-  map (fun p => v_fields (view p)) (fst (parse_points P_ns 0 bsl_witness))
-    = [[([97; 92; 61; 34; 120], VBool true); ([98], VErr 3)]] /\
-  snd (parse_points P_ns 0 bsl_witness) = [].
-Proof. exact accessor_panic_refuted. Qed.
+  map (fun p => v_fields (view p)) (fst (parse_points P_ns 0 bsl_witness2))
+    = [[([97; 92; 61; 34; 120], VErr 0); ([98], VErr 1)]] /\
+  snd (parse_points P_ns 0 bsl_witness2) = [].
+Proof. exact accessor_error_refuted. Qed.
 Print Assumptions C12_accessors_total_refuted.
+
+Example C12_lone_quote_value_no_panic :
+  map (fun p => v_fields (view p)) (fst (parse_points P_ns 0 bsl_witness))
+    = [[([97; 92; 61; 34; 120], VBool true); ([98], VStr [])]].
+Proof. exact lone_quote_no_panic. Qed.
 
 (** The error list is exactly the candidate lines (non-blank, non-comment blocks) on which
     parsePoint fails, in order, and the returned points are exactly the results on the
